@@ -11,6 +11,10 @@ func dumpModel(p *core.Prog, what string) {
 	switch what {
 	case "c01":
 		rules.C01Dump(&rules.Ctx{P: p, R: core.NewReport("C01", "quick", "/tmp", 0)})
+	case "perms":
+		for _, l := range rules.DumpPerms(&rules.Ctx{P: p, R: core.NewReport("C17", "quick", "/tmp", 0)}) {
+			fmt.Println(l)
+		}
 	case "dbg":
 		dbg(p)
 		dbg2(p)
